@@ -268,7 +268,7 @@ class ExprMixin:
             if srt == L.LRef:
                 return [(p, SV("lref", z))]
             if srt == L.DRef:
-                return [(p, SV("dref", z))]
+                return [(p, SV("dref", z, extra={"_node_by_id": "ref", "_nodes_by_data_id": "lref"}.get(attr, "val")))]
             if srt == L.Val:
                 return [(p, SV("val", z))]
             if srt == L.B:
